@@ -128,7 +128,12 @@ pub fn run_threads(seed: u64, rounds: usize, out: &str) -> serde_json::Value {
     let mut evals = 0u64;
     let mut samples = vec![];
     for r in 0..rounds {
-        hooks::flush_caches(); // cold caches: every thread races on the same missing entries
+        // cold caches: every thread races on the same missing entries
+        if std::panic::catch_unwind(hooks::flush_caches).is_err() {
+            violations.push(json!({"prop": "C12", "what": "emptying the memo caches panics after a concurrent round: a lock was left poisoned by a panicking detection", "known": null,
+                "case": {"round": r}}));
+            break;
+        }
         let n = *rng.pick(&[2usize, 3, 8, 16, 64]);
         let identical = r % 2 == 0;
         let first = rng.below(p.len());
@@ -165,8 +170,9 @@ pub fn run_threads(seed: u64, rounds: usize, out: &str) -> serde_json::Value {
                     }
                 }
                 Err(_) => {
-                    violations.push(json!({"prop": "C12", "what": format!("only {} of {} concurrent detections completed within 120 s (deadlock?)", finished, n),
-                        "known": null, "case": {"threads": n, "identical_inputs": identical}}));
+                    violations.push(json!({"prop": "C12", "what": format!("only {} of {} concurrent detections completed within 120 s (a thread died or deadlocked)", finished, n),
+                        "known": null, "case": {"threads": n, "identical_inputs": identical,
+                            "inputs": plan.iter().flatten().collect::<std::collections::BTreeSet<_>>().iter().map(|&&i| json!({"bytes_hex": hex(&p[i].0), "settings": settings_json(&p[i].1)})).collect::<Vec<_>>()}}));
                     break;
                 }
             }
